@@ -1,0 +1,81 @@
+//! Verification hooks (only compiled with `--cfg humphrey_verif`).
+//!
+//! Gives an external conformance harness access to the crate-private frame codec and the
+//! crate-private SHA-1 / Base64 utilities. Nothing here changes behaviour: every function forwards
+//! to the item the crate itself uses.
+
+use crate::frame::{Frame, Opcode};
+use crate::util::base64::{Base64Decode, Base64Encode};
+use crate::util::sha1::SHA1Hash;
+
+use std::convert::TryFrom;
+use std::io::Read;
+
+/// A frame with every field public: `(fin, rsv, opcode, mask, length, masking_key, payload)`.
+#[derive(Debug, Clone, PartialEq, Eq)]
+pub struct RawFrame {
+    /// FIN bit.
+    pub fin: bool,
+    /// RSV1-3 bits.
+    pub rsv: [bool; 3],
+    /// Opcode as its 4-bit number.
+    pub opcode: u8,
+    /// MASK bit.
+    pub mask: bool,
+    /// Payload length field.
+    pub length: u64,
+    /// Masking key.
+    pub masking_key: [u8; 4],
+    /// Payload bytes as stored in the frame.
+    pub payload: Vec<u8>,
+}
+
+impl From<Frame> for RawFrame {
+    fn from(f: Frame) -> Self {
+        Self {
+            fin: f.fin,
+            rsv: f.rsv,
+            opcode: f.opcode as u8,
+            mask: f.mask,
+            length: f.length,
+            masking_key: f.masking_key,
+            payload: f.payload,
+        }
+    }
+}
+
+/// Serialises a frame with `From<Frame> for Vec<u8>`. Returns `None` if the opcode is not one `Opcode` models.
+pub fn encode(f: RawFrame) -> Option<Vec<u8>> {
+    let opcode = Opcode::try_from(f.opcode).ok()?;
+    Some(Vec::<u8>::from(Frame {
+        fin: f.fin,
+        rsv: f.rsv,
+        opcode,
+        mask: f.mask,
+        length: f.length,
+        masking_key: f.masking_key,
+        payload: f.payload,
+    }))
+}
+
+/// Decodes one frame with `Frame::from_stream`. The error is the `Debug` rendering of `WebsocketError`.
+pub fn decode<T: Read>(stream: T) -> Result<RawFrame, String> {
+    Frame::from_stream(stream)
+        .map(RawFrame::from)
+        .map_err(|e| format!("{:?}", e))
+}
+
+/// The crate's SHA-1.
+pub fn sha1(data: &[u8]) -> [u8; 20] {
+    data.hash()
+}
+
+/// The crate's Base64 encoder.
+pub fn base64_encode(data: &[u8]) -> String {
+    data.encode()
+}
+
+/// The crate's Base64 decoder.
+pub fn base64_decode(data: &str) -> Result<Vec<u8>, ()> {
+    data.decode()
+}
